@@ -243,19 +243,19 @@ pub fn sdpkpp_valid<const K: usize, const KMER: usize, const P: u32>() {
 }
 
 use crate::inst;
-inst!(c19_qgrams_a1_q2_n3, 8, qgrams::<3, 2>(b"A"));
-inst!(c19_qgrams_a2_q2_n4, 8, qgrams::<4, 2>(b"AC"));
-inst!(c19_qgrams_a3_q2_n4, 8, qgrams::<4, 2>(b"ACG"));
-inst!(c19_qgrams_a4_q3_n5, 8, qgrams::<5, 3>(b"ACGT"));
-inst!(c19_qgrams_a5_q2_n4, 8, qgrams::<4, 2>(b"ACGNT"));
-inst!(c19_qgrams_a4_q1_n3, 8, qgrams::<3, 1>(b"ACGT"));
-inst!(c19_qgidx_a2_q2_n5, 12, qgram_index::<5, 2, false>(b"AC"));
-inst!(c19_qgidx_a4_q2_n5, 20, qgram_index::<5, 2, false>(b"ACGT"));
-inst!(c19_qgidx_a3_q2_n4, 20, qgram_index::<4, 2, false>(b"ACG"));
-inst!(c19_qgidx_a3_q1_n4, 12, qgram_index::<4, 1, false>(b"ACG"));
-inst!(c19_qgidx_a5_q2_n4, 70, qgram_index::<4, 2, false>(b"ACGNT"));
-inst!(c19_qgidx_a2_q2_n5_masked, 12, qgram_index::<5, 2, true>(b"AC"));
-inst!(c19_qgidx_a2_q3_n6, 12, qgram_index::<6, 3, false>(b"AC"));
+inst!(c19_qgrams_a1_q2_n3, 8, qgrams::<3, 2>(&[1]));
+inst!(c19_qgrams_a2_q2_n4, 8, qgrams::<4, 2>(&[1, 2]));
+inst!(c19_qgrams_a3_q2_n4, 8, qgrams::<4, 2>(&[1, 2, 3]));
+inst!(c19_qgrams_a4_q3_n5, 8, qgrams::<5, 3>(&[1, 2, 3, 4]));
+inst!(c19_qgrams_a5_q2_n4, 8, qgrams::<4, 2>(&[1, 2, 3, 4, 5]));
+inst!(c19_qgrams_a4_q1_n3, 8, qgrams::<3, 1>(&[1, 2, 3, 4]));
+inst!(c19_qgidx_a2_q2_n5, 12, qgram_index::<5, 2, false>(&[1, 2]));
+inst!(c19_qgidx_a4_q2_n5, 20, qgram_index::<5, 2, false>(&[1, 2, 3, 4]));
+inst!(c19_qgidx_a3_q2_n4, 20, qgram_index::<4, 2, false>(&[1, 2, 3]));
+inst!(c19_qgidx_a3_q1_n4, 12, qgram_index::<4, 1, false>(&[1, 2, 3]));
+inst!(c19_qgidx_a5_q2_n4, 70, qgram_index::<4, 2, false>(&[1, 2, 3, 4, 5]));
+inst!(c19_qgidx_a2_q2_n5_masked, 12, qgram_index::<5, 2, true>(&[1, 2]));
+inst!(c19_qgidx_a2_q3_n6, 12, qgram_index::<6, 3, false>(&[1, 2]));
 inst!(c19_lcskpp_k2_m2_p4, 12, lcskpp_opt::<2, 2, 4>());
 inst!(c19_lcskpp_k3_m2_p4, 14, lcskpp_opt::<3, 2, 4>());
 inst!(c19_lcskpp_k3_m1_p3, 12, lcskpp_opt::<3, 1, 3>());
